@@ -76,6 +76,10 @@ var c07Sets = [][]c07Route{
 }
 
 var c07Methods = []string{"GET", "POST", "HEAD", "BREW", "get", ""}
+
+// c07RareMethods: the remaining methods the router knows; most route sets register none of them (a known
+// method without any route is served by the not-found chain like any other miss). Served on every 8th path.
+var c07RareMethods = []string{"PUT", "PATCH", "DELETE", "OPTIONS", "CONNECT", "TRACE"}
 var c07HdrSets = []map[string][]string{nil, {"X-K": {"v"}}, {"X-K": {"w"}}, {"X-K": {""}}, {"X-K": {"v", "w"}}, {"X-K": {"w", "v"}},
 	// a header name present with no value at all, and one stored under a non-canonical key (invisible to Header.Get)
 	{"X-K": nil}, {"X-K": {}}, {"x-k": {"v"}}}
@@ -327,7 +331,7 @@ func c07Run(r *core.Run) {
 		r.SetBudget(10 * time.Minute)
 	}
 	paths := c07Paths(r.Thorough())
-	r.Rule = fmt.Sprintf("engine E: %d route sets (", len(c07Sets)) + "each segment kind alone and mixed, capture-limited match-alls, optional, header-constrained, multi-method, regex-active literals, empty) x NotFound {default, user chain} x application middleware {absent, present} x 6 method strings (incl. lower-case, unknown and empty) x every byte string of length <=3 (thorough 4) over {/ a % 2 F z NUL 0xff { ? .} appended to 4-7 prefixes plus three 64 KiB paths x header sets; oracle: no panic, the application middleware starts exactly once, the chain that runs is the one the reference priority picks (or not-found), and the request served three times gives identical observations; non-trivial = request whose path contains a byte outside [a-z/] or whose method is unknown"
+	r.Rule = fmt.Sprintf("engine E: %d route sets (", len(c07Sets)) + "each segment kind alone and mixed, capture-limited match-alls, optional, header-constrained, multi-method, regex-active literals, empty) x NotFound {default, user chain} x application middleware {absent, present} x 6 method strings (incl. lower-case, unknown and empty; the six remaining known methods on every 8th path) x every byte string of length <=3 (thorough 4) over {/ a % 2 F z NUL 0xff { ? .} appended to 4-7 prefixes plus three 64 KiB paths x header sets; oracle: no panic, the application middleware starts exactly once, the chain that runs is the one the reference priority picks (or not-found), and the request served three times gives identical observations; non-trivial = request whose path contains a byte outside [a-z/] or whose method is unknown"
 	r.Bounds["paths"] = len(paths)
 	r.Bounds["route_sets"] = len(c07Sets)
 	r.Bounds["methods"] = c07Methods
@@ -336,6 +340,7 @@ func c07Run(r *core.Run) {
 		si         int
 		userNF, mw bool
 		method     string
+		stride     int
 	}
 	var jobs []job
 	for si := range c07Sets {
@@ -345,9 +350,12 @@ func c07Run(r *core.Run) {
 					if !r.Thorough() && !mw && !nf && m != "GET" {
 						continue
 					}
-					jobs = append(jobs, job{si, nf, mw, m})
+					jobs = append(jobs, job{si, nf, mw, m, 1})
 				}
 			}
+		}
+		for _, m := range c07RareMethods {
+			jobs = append(jobs, job{si, false, false, m, 8}, job{si, true, true, m, 8})
 		}
 	}
 	r.Parallel(func(w, nw int, l *core.Local) {
@@ -378,6 +386,9 @@ func c07Run(r *core.Run) {
 			for pi, p := range paths {
 				if pi%256 == 0 && r.Expired() {
 					return
+				}
+				if pi%j.stride != 0 {
+					continue
 				}
 				for _, hdr := range hdrs {
 					l.Evals++
